@@ -83,7 +83,12 @@ Definition step_403 (idx t : Z) (cur : list Z) (kind : Z) (p : list pstep) (st :
     end
   else VBad 98 [].
 
-(* the next step starts from the implementation's buffer (equal to the model's unless the verdict was a drift) *)
+(* the next step starts from the implementation's buffer (equal to the model's unless the verdict was a drift).  An insertion
+   outside the API contract (a raw key that is no key encoding, a node of a type the container does not declare) is performed
+   by the code and by the byte model alike, but leaves a buffer that is no value any more: the history is judged up to that
+   step and ends there (the walk of the next step would read declared lengths the bounds-checked skip rejects) *)
+Definition walkable (t : Z) (bs : list Z) : bool := match skip_go t bs with Some [] => true | _ => false end.
+
 Fixpoint run_403 (n : nat) (idx t : Z) (cur : list Z) (fs : list field) : verdict :=
   match n with
   | O => match fs with [] => VOk | _ => VBad 97 [] end
@@ -93,8 +98,8 @@ Fixpoint run_403 (n : nat) (idx t : Z) (cur : list Z) (fs : list field) : verdic
       match parse_path rest with
       | Some (p, FZ st :: FB sb :: FZ err :: FZ ex :: FB res :: FZ flags :: rest') =>
         match step_403 idx t cur kind p st sb err ex res flags with
-        | VOk => run_403 n' (idx + 1) t res rest'
-        | VDrift c => match run_403 n' (idx + 1) t res rest' with VOk => VDrift c | o => o end
+        | VOk => if walkable t res then run_403 n' (idx + 1) t res rest' else VOk
+        | VDrift c => if walkable t res then match run_403 n' (idx + 1) t res rest' with VOk => VDrift c | o => o end else VDrift c
         | o => o
         end
       | _ => VBad 96 []
